@@ -146,9 +146,21 @@ type trackedReader struct {
 	data     *bytes.Reader
 	closes   atomic.Int32
 	closeErr error // what Close reports (a member's reader may fail to close cleanly)
+	readErr  error // if set: Read fails with it after half of the content
+	nread    int
 }
 
-func (r *trackedReader) Read(p []byte) (int, error)         { return r.data.Read(p) }
+func (r *trackedReader) Read(p []byte) (int, error) {
+	if r.readErr != nil && r.nread >= int(r.data.Size())/2 {
+		return 0, r.readErr
+	}
+	if r.readErr != nil && len(p) > int(r.data.Size())/2-r.nread {
+		p = p[:int(r.data.Size())/2-r.nread]
+	}
+	n, err := r.data.Read(p)
+	r.nread += n
+	return n, err
+}
 func (r *trackedReader) Close() error                       { r.closes.Add(1); return r.closeErr }
 func (r *trackedReader) Descriptor() ociregistry.Descriptor { return r.desc }
 
@@ -159,6 +171,7 @@ type member struct {
 	spin     int
 	closeErr error // error its readers report from Close
 	failErr  error // what a failing answer wraps instead of memberErr (e.g. the member's own timeout)
+	readErr  error // error its readers report from Read halfway through
 
 	gate     chan struct{} // closed by the harness: the answer may be given
 	abort    chan struct{} // closed at the very end of the cell, whatever happened
@@ -212,7 +225,7 @@ func (m *member) serve(ctx context.Context) (*trackedReader, error) {
 	}
 	var rd *trackedReader
 	if m.ok {
-		rd = &trackedReader{desc: memberDesc(m.idx), data: bytes.NewReader(memberContent(m.idx)), closeErr: m.closeErr}
+		rd = &trackedReader{desc: memberDesc(m.idx), data: bytes.NewReader(memberContent(m.idx)), closeErr: m.closeErr, readErr: m.readErr}
 	}
 	m.mu.Lock()
 	m.rd = rd
@@ -869,7 +882,18 @@ func (s *sched) execute() {
 				fmt.Sprintf("the reader of the chosen member m%d had already been closed %d time(s) while the caller still holds it open", w, n), nil)
 		}
 		data, rerr := io.ReadAll(s.res.rd)
-		if rerr != nil || !bytes.Equal(data, memberContent(w)) {
+		if want := s.m[w].readErr; want != nil {
+			// the chosen member's reader fails halfway: the error is the caller's to see, and the member's
+			// context stays live until the caller closes the reader
+			run.Count("winner_reader/read_failed_midway", 1)
+			if !errors.Is(rerr, want) {
+				s.violate("result/"+entryNames[c.entry]+"/read-error", fmt.Sprintf("the chosen member's reader fails with %v; the returned reader reported %v after %d bytes", want, rerr, len(data)), nil)
+			}
+			if wctx, _, _ := s.m[w].snapshot(); wctx != nil && !s.cancelIssued && wctx.Err() != nil {
+				s.violate("winner-ctx/done-after-read-error/"+entryNames[c.entry],
+					fmt.Sprintf("after a failed Read the context given to the chosen member m%d is already done (%v) although the returned reader has not been closed and the caller has not cancelled", w, wctx.Err()), nil)
+			}
+		} else if rerr != nil || !bytes.Equal(data, memberContent(w)) {
 			s.violate("result/"+entryNames[c.entry]+"/content",
 				fmt.Sprintf("the returned reader does not deliver the content of the chosen member m%d: got %q, err %v", w, data, rerr), nil)
 		}
@@ -1014,6 +1038,12 @@ func main() {
 				s.m[0].failErr = fmt.Errorf("member 0: upstream request: %w", context.Canceled)
 				s.m[1].failErr = fmt.Errorf("member 1: upstream request: %w", context.Canceled)
 				run.Count("cases_with_context_like_member_errors", 1)
+			}
+			if rep%5 == 3 {
+				// readers that fail halfway through the content
+				s.m[0].readErr = errors.New("member 0: connection reset while reading")
+				s.m[1].readErr = errors.New("member 1: connection reset while reading")
+				run.Count("cases_with_failing_reader_read", 1)
 			}
 			if rep%3 == 2 {
 				// readers whose Close reports an error: everything still has to be released
